@@ -180,6 +180,8 @@ struct Cfg {
     world_ty: String,
     /// vacuity probe run: every verified unit body starts with `assert(false)`, which must FAIL
     vacuity_probe: bool,
+    /// I1 switched off for this run (fallback when written-out helper text does not compile)
+    no_inline_run: bool,
 }
 
 /// does the closure body contain a `return` or `?` of its own (not inside a nested closure / item)?
@@ -2409,6 +2411,7 @@ fn main() {
         opaque_fmt_in: cfgv["opaque_fmt_in"].as_array().map(|a| a.iter().map(|x| x.as_str().unwrap().to_string()).collect()).unwrap_or_default(),
         world_ty: cfgv.get("world_ty").and_then(|x| x.as_str()).unwrap_or("crate::shims::World").to_string(),
         vacuity_probe: cfgv.get("vacuity_probe").and_then(|x| x.as_bool()).unwrap_or(false),
+        no_inline_run: cfgv.get("no_inline").and_then(|x| x.as_bool()).unwrap_or(false),
     };
     let mut out_files = Map::new();
     let mut all_errors: Vec<String> = vec![];
@@ -2721,7 +2724,7 @@ fn main() {
                             let has_self = matches!(m.sig.inputs.first(), Some(FnArg::Receiver(_)));
                             let assoc_called = !has_self && (called.contains(&format!("Self::{n}")) || called.contains(&format!("{}::{n}", self_ty_key(&im.self_ty))));
                             if ((has_self && called.contains(&n)) || assoc_called || of_auto_type) && !units.contains_key(&at) && cfg.env.attrs_on(&m.attrs).unwrap_or(false)
-                                && (!cfg.eff_method.contains_key(&format!(".{n}")) || of_auto_type) {
+                                && (!cfg.eff_method.contains_key(&format!(".{n}")) || cfg.eff_method_derived.contains(&format!(".{n}")) || of_auto_type) {
                                 let mut sc = EffScan { cfg: &cfg, auto_modes: &modes, mode: 0 };
                                 sc.visit_block(&m.block);
                                 let md = match sc.mode { 2 => "mut", 1 => "ro", _ => "none" };
@@ -2787,7 +2790,7 @@ fn main() {
                 }
             }
         }
-        let mut fc = FileCtx { cfg: &cfg, src: &src, edits: vec![], rule_counts: BTreeMap::new(), errors: vec![], warnings: vec![], degraded: vec![], extra_eff: extra_eff.clone(), fname: fname.clone(), ro_violations: vec![], field_types: field_types.clone(), locals_out: BTreeMap::new(), private_units: vec![], code_renames: code_renames.clone(), auto_nested: HashMap::new(), tail_calls: HashMap::new(), inline_map: HashMap::new(), no_inline: false, no_probe: false };
+        let mut fc = FileCtx { cfg: &cfg, src: &src, edits: vec![], rule_counts: BTreeMap::new(), errors: vec![], warnings: vec![], degraded: vec![], extra_eff: extra_eff.clone(), fname: fname.clone(), ro_violations: vec![], field_types: field_types.clone(), locals_out: BTreeMap::new(), private_units: vec![], code_renames: code_renames.clone(), auto_nested: HashMap::new(), tail_calls: HashMap::new(), inline_map: HashMap::new(), no_inline: cfg.no_inline_run, no_probe: false };
         // segments to keep: (start, end, kind, name)
         let mut segs: Vec<(usize, usize, String, String)> = vec![];
         let mut found_units: HashSet<String> = HashSet::new();
@@ -2804,7 +2807,7 @@ fn main() {
         // itself is still emitted and verified on its own.
         let mut inlined_helpers: Vec<String> = vec![];
         let mut inline_ats: Vec<String> = vec![];
-        for item in &file.items {
+        for item in file.items.iter().filter(|_| !cfg.no_inline_run) {
             if let Item::Fn(f) = item {
                 let name = f.sig.ident.to_string();
                 let at = format!("fn:{}", name);
@@ -2853,7 +2856,7 @@ fn main() {
 
         // I1 for associated functions without a receiver (`Self::helper(..)`): rendered by a dry run
         // into a scratch context (their real copy is emitted with their impl block below)
-        for item in &file.items {
+        for item in file.items.iter().filter(|_| !cfg.no_inline_run) {
             if let Item::Impl(im) = item {
                 if im.trait_.is_some() || !cfg.env.attrs_on(&im.attrs).unwrap_or(false) {
                     continue;
